@@ -2,6 +2,7 @@
    failing calls (the re-raise path is findings D16/D23); proofs in Proofs/ExecLive.v. *)
 From Coq Require Import List Bool Arith.
 From EL Require Import Model.Exec Model.ExecInv Proofs.ExecLiveCor.
+From EL Require Import Model.StepExec Model.DepExec Model.LiveSpec Proofs.DepSafe Proofs.DepLiveCor.
 Import ListNotations.
 
 (* when shutdown(wait=True) / the with-block returns: every worker process has exited and every
@@ -26,3 +27,17 @@ Theorem C12_exited_at_rest :
     (forall p, In p (ps s) -> palive p = false) /\ (forall w, In w (ws s) -> wdone w = true).
 Proof. exact all_exited_thm. Qed.
 Print Assumptions C12_exited_at_rest.
+
+(* with the dependency resolver in front: at rest every worker process has exited, every worker
+   thread and the resolver thread have finished *)
+Theorem C12_resolver_exited_at_rest :
+  forall c n prog d k,
+    dinner c = IBlock k -> 1 <= k -> (forall i, xraises (dx c) i = false) ->
+    wf_prog n prog -> wf_deps c n -> dreach c (dinit n prog) d ->
+    denabled c d = [] ->
+    (forall p, In p (ps (dbase d)) -> palive p = false) /\ (forall w, In w (ws (dbase d)) -> wdone w = true) /\ rp d = RDone.
+Proof.
+  intros c n prog d k H1 H2 H3 H4 H5 H6 H7.
+  pose proof (dep_rest c n prog d k H1 H2 H3 H4 H5 H6 H7) as [_ [_ [Hp [Hw Hr]]]]. auto.
+Qed.
+Print Assumptions C12_resolver_exited_at_rest.
